@@ -60,14 +60,25 @@ PROPS = {
                        "_uuid shortcut - returns exactly the rows satisfying every condition in every cache state meeting the C05 index invariant, hence "
                        "independently of the index configuration; the condition functions are shown to be RFC 7047's (==, !=, <, <=, >, >=, includes, excludes on "
                        "atoms, optionals, sets, maps). Tied to the code by evaluating the same contents and condition lists under 4 of 7 index configurations. "
-                       "The conditional API (WhereAll/WhereAny/Where(model), generated operations) is not yet modelled: that clause of C08 is not covered."),
+                       "The conditional API (Cli/CondApi.v: Matches = List() and Generate of equality / explicit / predicate conditionals, Delete/Update/Mutate): "
+                       "WhereAll reports the rows satisfying all conditions, WhereAny those satisfying any; with a cache hit one operation per listed row is sent, by "
+                       "_uuid, otherwise the caller's conditions (for models: _uuid or the first schema index all of whose columns are set), which then select nothing; "
+                       "executed by the engine on a synchronised database the operations affect exactly the listed rows (counts, listed rows transformed, other rows "
+                       "and tables untouched). Tied to the code by a real client on a real server: List(), the where of every generated operation and the table "
+                       "after cl.Transact(ops) are compared with the model."),
         "level_note": ("Trusted: Coq kernel + vm_compute, std++; Go harness incl. its own RFC evaluator used as direct oracle; model hand-written. Conditions are "
                        "well typed (the property's quantifier); error masking for ill-typed conditions is outside the model."),
         "rule": ("tables of 0..8 rows over 12 columns of all kinds (values from pools of 4 so that conditions hit), 2..6 (thorough ..10) condition lists of 0..4 "
                  "conditions (all 8 functions, _uuid conditions, repeated columns, sub-collections of stored values, same set in different order, two conditions on "
                  "different keys of one map), each evaluated under 'no index' and 3 other configurations (schema single/multi, client, overlapping, map-key, two "
-                 "keys of one map). Non-trivial: >= 2 conditions, >= 3 rows, result neither empty nor everything."),
-        "tags": {1: "RowsByCondition vs model with pre-filter", 2: "RowsByCondition vs declarative filter", 3: "error for well-typed conditions", 5: "generator produced an ill-typed condition"},
+                 "keys of one map). Non-trivial: >= 2 conditions, >= 3 rows, result neither empty nor everything. API cases (160 quick / 2500 thorough): one of 7 "
+                 "index configurations, 0..7 rows, a conditional (1-3 models with an existing / unknown / no uuid and index columns copied from rows, partially "
+                 "set or random; WhereAll or WhereAny of 1-3 generated conditions; WhereCache predicate) and one call (Delete, Update with named fields or "
+                 "whole model, Mutate with 1-2 mutations), executed through the client's own Transact. Non-trivial: List() neither empty nor everything and the "
+                 "operations committed."),
+        "tags": {1: "RowsByCondition vs model with pre-filter", 2: "RowsByCondition vs declarative filter", 3: "error for well-typed conditions", 5: "generator produced an ill-typed condition",
+                 10: "List() fails", 11: "List() vs model's Matches", 12: "API call succeeds where the model refuses", 13: "API call fails where the model generates operations",
+                 14: "where clauses of the generated operations", 15: "table after executing the generated operations", 16: "committed, the model's transaction fails", 17: "not committed, the model's transaction commits"},
         "assumptions": ["conditions are well typed for their column", "the cache state satisfies the C05 invariant (schema-indexed values unique)"],
     },
     "C03": {
